@@ -31,6 +31,7 @@ fn main() {
     // Injected panics are expected in some campaigns: keep their backtraces out of the log.
     std::panic::set_hook(Box::new(|info| {
         let msg = info.to_string();
+        campaign::note_panic(&msg);
         if !msg.contains(db::PANIC_PREFIX) {
             eprintln!("{msg}");
         }
